@@ -18,7 +18,7 @@ import itertools
 import os
 import re
 
-from lib import env, ex
+from lib import env, ex, par
 from . import common, minsel, phase
 
 TITLE = 'C04: collective matching, rank-slice coverage by abstract evaluation, address-order taint, wire format, MPI min operator.'
@@ -489,6 +489,30 @@ def check_slices(rep, prog):
                               '(a floor instead of a ceiling in the stride loses the tail)' % bad, key='R04c|%s|coverage' % fn.g)
             else:
                 rep.ok('R04c', loop, fn, what, 'evaluated for 9 totals x 9 communicator sizes: exact partition')
+            # R04h: the work for index i must not depend on where the rank's slice started
+            whath = 'what is computed for index i inside a rank slice does not depend on the indices visited before it (the slice starts at rank*stride, not at 0)'
+            eff = par.Effects(prog)
+            carried = []
+            ws = [(node, target) for (node, target, how) in eff.writes(fn) if loop.body is not None and loop.body.is_ancestor_of(node)]
+            for (node, target) in ws:
+                root, idx, names = par.access_path(target)
+                if root is None or root == iv:
+                    continue
+                decl = [d for d in fn.walk() if d.k == 'VarDecl' and d.decl_id == root]
+                if decl and loop.is_ancestor_of(decl[0]):
+                    continue
+                reads = [d for d in loop.body.walk() if d.k == 'DeclRefExpr' and d.decl_id == root and
+                         not any(w[0].is_ancestor_of(d) and par.access_path(w[1])[0] == root for w in ws)]
+                if reads:
+                    carried.append((node, root, reads[0]))
+            if carried:
+                node, root, rd = carried[0]
+                rep.violation('R04h', node, fn, whath,
+                              '`%s` is modified inside the rank slice (`%s`) and read there (line %d): its value at index i is the result of the '
+                              'iterations since rank*stride, not since 0, so every rank but the first computes it from a different prefix' % (
+                                  prog.vars[root]['name'], node.text(40), rd.line), key='R04h|%s|%s' % (fn.g, prog.vars[root]['name']))
+            else:
+                rep.ok('R04h', loop, fn, whath, 'no state carried between the iterations of the slice besides append-only outputs')
             # R04d
             seqvar, acc = sequence_indexed(prog, fn, loop, iv)
             whatd = 'the sliced sequence has the same order on every rank (no address-ordered container behind it)'
@@ -621,6 +645,7 @@ def run(rep, tier):
     rep.rule('R04g', 'support[k] broadcast before use in every phase', floor=2)
     rep.rule('R04c', 'rank slices are an exact partition', floor=3)
     rep.rule('R04d', 'sliced sequences are not address-ordered', floor=3)
+    rep.rule('R04h', 'no prefix-dependent state inside a rank slice', floor=3)
     rep.rule('R01d', 'R04e: only rank 0 emits', floor=2)
     rep.rule('R04f', 'wire format completeness', floor=3)
     rep.rule('R04m', 'MPI min operator', floor=1)
@@ -652,7 +677,7 @@ def run(rep, tier):
         check_wire(prep, pp)
         check_minop(prep, pp)
         check_forest_order(prep, pp)
-        for r in ('R04a', 'R04b', 'R04g', 'R04c', 'R04d', 'R04f', 'R04m', 'R16e'):
+        for r in ('R04a', 'R04b', 'R04g', 'R04c', 'R04d', 'R04h', 'R04f', 'R04m', 'R16e'):
             rep.positive(r, 'witness/positive/c04_mpi.cc', any(i.status == 'violation' and i.rule == r for i in prep.instances.values()))
     except env.AnalysisBroken as e:
         rep.analysis_broken('positive example c04_mpi.cc does not parse against the current headers: ' + str(e)[:300])
